@@ -16,7 +16,12 @@ META = {
              "(alloc_bounded) when CompressedSize and the snappy declared length are bounds-checked. Closed witnesses for each missing "
              "check: forgedSize_allocates (80-byte file -> 4 GiB request and no error), not_holds_of_unboundedDecodedLen, "
              "not_holds_of_noCrc, not_holds_of_noULen, not_holds_of_trailingIgnored (EntryCount 2->1 resurrects a deleted key). "
-             "'Never decodes damaged bytes into different records' is proved relative to the 32-bit checksum (2^-32 residual, stated)."),
+             "'Never decodes damaged bytes into different records' is proved relative to the 32-bit checksum (2^-32 residual, stated). "
+             "'Reports the damage' is stated precisely: load_is_prefix_replay (a file cut anywhere loads a prefix of its blocks) and "
+             "oversized_csize_hides_rest / load_after_oversized_csize (a CompressedSize larger than the rest of the file is a SILENT end "
+             "of data, also in the middle of a file: later intact blocks are dropped without an error). Scope: NewFileReader + LoadIndex; "
+             "ScanBlockHeaders and the writer's torn-tail walk are fuel-bounded by construction; CalculateFragmentation, compaction and "
+             "chroniclerV2.Load are outside C04's claims."),
     "note": ("Trusted: Lean kernel; extract/c04.go; harness/c04.go (child process, RLIMIT_AS 3 GiB, runtime.MemStats.TotalAlloc); "
              "executable snappy decoder / CRC-32 of the driver (differential-tested on every file). Go-level panics are excluded by the "
              "fuzz run only. The allocation theorem assumes the decoder returns no more than it declares (true of snappy)."),
